@@ -92,6 +92,11 @@ def cases(ctx):
     for f in (0.0, 3.0, -2.5, 1e-300):
         add(f'split:float:{f}', 'split', f, lambda v, o: (v / 2, v / 2))
     add('split:quantity', 'split', 'q', lambda v, o: (v / 2, v / 2))
+    # a quantity with an INTEGER magnitude (a count with units): halves,
+    # whatever the coin says
+    for qn in ('qint7', 'qint8'):
+        add(f'split:{qn}', 'split', qn, lambda v, o: (v / 2, v / 2),
+            outcomes=(True, False))
     add('split:inf', 'split', math.inf, lambda v, o: (v, v))
     add('split:Infinity', 'split', 'Infinity', lambda v, o: (v, v))
     # split_dict on a leaf
@@ -133,6 +138,8 @@ def mk_value(val):
         return 3.0 * units.fg
     if val == 'np7':
         return np.int64(7)
+    if val in ('qint7', 'qint8'):
+        return int(val[-1]) * units.count
     return copy.deepcopy(val)
 
 
@@ -891,3 +898,6 @@ def replay(case):
 
 RULE += (
     ' Branch-level dividers also in dictionary form (named divider, user function with config). Copied processes of the two daughters share no mutable parameter object.')
+
+RULE += (
+    ' The split divider is also given quantities with an integer magnitude (7 count, 8 count), under both coin outcomes: the daughters get halves that add up to the mother.')
